@@ -170,6 +170,13 @@ func (fc *FuncCtx) fresh(prefix, sort string) string {
 	return name
 }
 
+// addFact appends an unconditional fact. (A method on *State so that the argument — whose evaluation may itself add
+// facts, e.g. heap typing axioms — is evaluated before the list is extended; `st.facts = st.facts.push(f(..))` would
+// evaluate the receiver first and drop those facts.)
+func (st *State) addFact(t string) {
+	st.facts = st.facts.push(t)
+}
+
 func (st *State) assume(t string) {
 	if t == "true" || t == "" {
 		return
@@ -177,7 +184,7 @@ func (st *State) assume(t string) {
 	if len(st.guard) > 0 {
 		t = sImp(sAnd(st.guard...), t)
 	}
-	st.facts = st.facts.push(t)
+	st.addFact(t)
 }
 
 // define introduces a named constant equal to term (keeps VCs readable and small).
@@ -195,7 +202,7 @@ func (st *State) define(prefix, sort, term string) string {
 		st.fc.defs = map[string]string{}
 	}
 	st.fc.defs[c] = term
-	st.facts = st.facts.push(f) // definitions are unconditional
+	st.addFact(f) // definitions are unconditional
 	return c
 }
 
@@ -265,9 +272,9 @@ func (st *State) heapTyping(name, h string) {
 	if heapHoldsRefs[name] {
 		// every reference stored in the heap is nil or allocated (no dangling references in Go)
 		if strings.HasPrefix(name, "E!") {
-			st.facts = st.facts.push(fmt.Sprintf("(forall ((g_a Int) (g_i Int)) (! (and (<= 0 (select (select %s g_a) g_i)) (< (select (select %s g_a) g_i) %s)) :pattern ((select (select %s g_a) g_i))))", h, h, st.alloc, h))
+			st.addFact(fmt.Sprintf("(forall ((g_a Int) (g_i Int)) (! (and (<= 0 (select (select %s g_a) g_i)) (< (select (select %s g_a) g_i) %s)) :pattern ((select (select %s g_a) g_i))))", h, h, st.alloc, h))
 		} else if strings.HasPrefix(name, "P!") {
-			st.facts = st.facts.push(fmt.Sprintf("(forall ((g_a Int)) (! (and (<= 0 (select %s g_a)) (< (select %s g_a) %s)) :pattern ((select %s g_a))))", h, h, st.alloc, h))
+			st.addFact(fmt.Sprintf("(forall ((g_a Int)) (! (and (<= 0 (select %s g_a)) (< (select %s g_a) %s)) :pattern ((select %s g_a))))", h, h, st.alloc, h))
 		}
 		return
 	}
@@ -279,7 +286,7 @@ func (st *State) heapTyping(name, h string) {
 	if !ok {
 		return
 	}
-	st.facts = st.facts.push(fmt.Sprintf("(forall ((g_a Int) (g_i Int)) (! (and (<= %s (select (select %s g_a) g_i)) (<= (select (select %s g_a) g_i) %s)) :pattern ((select (select %s g_a) g_i))))", r[0], h, h, r[1], h))
+	st.addFact(fmt.Sprintf("(forall ((g_a Int) (g_i Int)) (! (and (<= %s (select (select %s g_a) g_i)) (<= (select (select %s g_a) g_i) %s)) :pattern ((select (select %s g_a) g_i))))", r[0], h, h, r[1], h))
 }
 
 func (st *State) noteUnknownWrite(name string) {
@@ -498,6 +505,7 @@ func (st *State) heapIn(heap map[string]string, name, sort string) string {
 	// register so that later reads through the live state agree
 	if _, ok := st.heap[name]; !ok {
 		st.heap[name] = c
+		st.heapTyping(name, c)
 	}
 	return c
 }
